@@ -651,13 +651,66 @@ def pool_front_compiles(ctx):
         errs = [l for l in out.splitlines() if "error" in l][:4]
         ctx.violation("PoolList::front()/back() cannot be instantiated (compile error): no reference to the first/last element can be obtained",
                       "# C++ input (does not compile against the current include/nstd/PoolList.hpp):\n" +
-                      "".join("#   " + l + "\n" for l in PROBE.splitlines()) + "".join("# " + e + "\n" for e in errs) + "pfront 0\n",
+                      "".join("#   " + l + "\n" for l in PROBE.splitlines()) + "".join("# " + e + "\n" for e in errs) +
+                      "# probe=poollist-front\n",
                       signature="poollist-front-compile")
         ctx.log("PoolList::front()/back() do not compile; pfront/pback are left out of the histories")
     return rc == 0
 
 
+# ---- Array::reserve with a capacity whose byte size overflows usize ---------------------------------
+OVERFLOW_PROBE = """#include <stdlib.h>
+#include <stdio.h>
+#include <unistd.h>
+#include <nstd/Array.hpp>
+// an allocator that fails cleanly for absurd sizes (as the standard one does by throwing)
+void* operator new[](usize size) { if(size > ((usize)1 << 40)) { puts("alloc-too-large"); fflush(stdout); _exit(42); } return malloc(size); }
+void operator delete[](void* p) { free(p); }
+void* operator new(usize size) { return operator new[](size); }
+void operator delete(void* p) { free(p); }
+int main()
+{
+  Array<int> a;
+  a.reserve((usize)-1 / sizeof(int) + 2);   // sizeof(int) * capacity wraps around to a few bytes
+  for(int i = 0; i < 8; ++i) a.append(i);
+  puts("no-failure");
+  return 0;
+}
+"""
+
+
+def reserve_overflow_probe(ctx):
+    """the request must reach the allocator as an oversized one (exit 42); a wrapped-around small allocation followed by
+    appends is a heap overflow (ASan)"""
+    src = C.BUILD / f"seq_ovf_{os.getpid()}.cpp"
+    exe = C.BUILD / f"seq_ovf_{os.getpid()}"
+    src.write_text(OVERFLOW_PROBE)
+    try:
+        rc, out = C.sh([C.CXX] + C.CXXFLAGS + [f"-I{C.REPO}/include", str(src), "-o", str(exe)], timeout=300)
+        if rc != 0:
+            ctx.broken.append("reserve-overflow probe does not compile: " + out[-600:])
+            return
+        env = dict(C.SAN_ENV)
+        rc, out = C.sh([str(exe)], timeout=60, env=env)
+        ctx.cov.setdefault("branch_hits", {})["reserve with overflowing byte size rejected by the allocator"] = 1 if rc == 42 else 0
+        if rc != 42:
+            first = [l for l in out.splitlines() if "ERROR" in l or "no-failure" in l][:2]
+            ctx.violation("Array::reserve(n) with sizeof(T)*n overflowing usize allocates a wrapped-around size; later appends write behind it",
+                          "# C++ input (Array<int>): a.reserve((usize)-1 / sizeof(int) + 2); then 8 x a.append(i)\n" +
+                          "".join("# " + l + "\n" for l in first) +
+                          "# probe=reserve-overflow   (replayed by compiling and running the probe program, not by op lines: the harness'\n"
+                          "# allocator cannot fail cleanly)\n",
+                          signature="array-reserve-overflow")
+    finally:
+        for f in (src, exe):
+            try:
+                f.unlink()
+            except OSError:
+                pass
+
+
 def build(ctx):
+    reserve_overflow_probe(ctx)
     pf = pool_front_compiles(ctx)
     h = C.build_harness(ctx, "seq", ["seq.cpp"], extra_flags=["-DSEQ_POOL_FRONT"] if pf else [])
     return h, pf
@@ -671,7 +724,7 @@ def check(ctx):
         "lockstep by the driver; the harness checks forward/backward walks and the null predecessor of the first item on every observation",
         "position-level quicksort (next = position + 1) is proved equal to the heap-level one (item addresses, next reads, pointer comparison)",
         "Array: capacity model + cell-level model of the loops (proved related, run in lockstep); separate containers never alias",
-        "allocation never fails",
+        "allocation never fails for the sizes of the histories (<= 45 elements per request); the byte-size overflow of reserve is probed separately on the real code",
     ]
     proof_ok = C.proof_stage(ctx, PROPS, [DRIVER], leanchecker=(ctx.tier == "thorough"))
     harness, pf = build(ctx)
@@ -716,6 +769,15 @@ def check(ctx):
 
 
 def replay(ctx, path):
+    text = open(path).read()
+    if "probe=reserve-overflow" in text:
+        reserve_overflow_probe(ctx)
+        print("reserve-overflow probe:", "still failing" if ctx.violations else "passes")
+        return
+    if "probe=poollist-front" in text:
+        ok = pool_front_compiles(ctx)
+        print("PoolList::front()/back() probe:", "compiles" if ok else "still failing")
+        return
     h = C.parse_replay(path)
     harness, pf = build(ctx)
     C.lake_build([DRIVER])
